@@ -3,6 +3,7 @@
 package checks
 
 import (
+	"context"
 	"fmt"
 	"runtime"
 	"sync"
@@ -60,7 +61,9 @@ const (
 	// the account counts as a release of the duty if it is a valid partial signature over the duty.
 	routeBatch2Pad = 7 // as routeBatch2Key, the account addressed by its share public key followed by one more byte (the
 	// account lookup uses the first 48 bytes)
-	routeStale = 5 // not a duty at all: a batch of two whose entry for the account is an older attestation (source 0,
+	routeBatch2KeyFault = 8 // as routeBatch2Key, while every write to this instance's slashing-protection store fails
+	routeSingleFault    = 9 // as routeSingleName, while every write to this instance's slashing-protection store fails
+	routeStale          = 5 // not a duty at all: a batch of two whose entry for the account is an older attestation (source 0,
 	// target 1), which is refused once anything later has been signed; neither duty may become signable through it
 )
 
@@ -73,6 +76,14 @@ func signDuty(c *rig.Cluster, id uint64, account string, d duty, route int) []by
 	n := c.Nodes[id]
 	creds := &checker.Credentials{Client: rig.DefaultClient, RequestID: "s", IP: "10.0.0.1"}
 	name, key := account, []byte(nil)
+	ctx := n.Rig.Ctx
+	switch route {
+	case routeBatch2KeyFault, routeSingleFault:
+		// The store of this instance cannot be written while the request is served (reads work).
+		InstallSigFaults()
+		ctx = context.WithValue(ctx, sigFaultKey{}, "write")
+		route = map[int]int{routeBatch2KeyFault: routeBatch2Key, routeSingleFault: routeSingleName}[route]
+	}
 	if route == routeSingleKey || route == routeBatch2Key || route == routeBatch2Last || route == routeBatch2Pad {
 		_, acc, err := n.Rig.RealFetch.FetchAccount(n.Rig.Ctx, account)
 		if err != nil {
@@ -81,20 +92,20 @@ func signDuty(c *rig.Cluster, id uint64, account string, d duty, route int) []by
 		name, key = "", acc.PublicKey().Marshal()
 	}
 	if d.prop {
-		_, sig := n.Rig.Signer.SignBeaconProposal(n.Rig.Ctx, creds, name, key, PropData(d.e))
+		_, sig := n.Rig.Signer.SignBeaconProposal(ctx, creds, name, key, PropData(d.e))
 		return sig
 	}
 	var data *rules.SignBeaconAttestationData = AttData(d.e)
 	switch route {
 	case routeBatch1Name:
-		_, sigs := n.Rig.Signer.SignBeaconAttestations(n.Rig.Ctx, creds, []string{name}, nil, []*rules.SignBeaconAttestationData{data})
+		_, sigs := n.Rig.Signer.SignBeaconAttestations(ctx, creds, []string{name}, nil, []*rules.SignBeaconAttestationData{data})
 		if len(sigs) > 0 {
 			return sigs[0]
 		}
 		return nil
 	case routeBatch2Pad:
 		comp := n.Rig.AddSymAccount("Wallet 1", "", "pass", true)
-		_, sigs := n.Rig.Signer.SignBeaconAttestations(n.Rig.Ctx, creds, []string{"", ""}, [][]byte{comp.PubBytes(), append(append([]byte{}, key...), 0)},
+		_, sigs := n.Rig.Signer.SignBeaconAttestations(ctx, creds, []string{"", ""}, [][]byte{comp.PubBytes(), append(append([]byte{}, key...), 0)},
 			[]*rules.SignBeaconAttestationData{AttData(Ent{S: 0, T: 1, Root: 1}), data})
 		if len(sigs) > 1 {
 			return sigs[1]
@@ -103,7 +114,7 @@ func signDuty(c *rig.Cluster, id uint64, account string, d duty, route int) []by
 	case routeBatch2Key:
 		// The companion is a fresh plain account each time, so its entry is always approved.
 		comp := n.Rig.AddSymAccount("Wallet 1", "", "pass", true)
-		_, sigs := n.Rig.Signer.SignBeaconAttestations(n.Rig.Ctx, creds, []string{"", ""}, [][]byte{comp.PubBytes(), key},
+		_, sigs := n.Rig.Signer.SignBeaconAttestations(ctx, creds, []string{"", ""}, [][]byte{comp.PubBytes(), key},
 			[]*rules.SignBeaconAttestationData{AttData(Ent{S: 0, T: 1, Root: 1}), data})
 		if len(sigs) > 1 {
 			return sigs[1]
@@ -113,14 +124,14 @@ func signDuty(c *rig.Cluster, id uint64, account string, d duty, route int) []by
 		// The companion has already voted for a later target, so its entry, which comes last, is refused.
 		comp := n.Rig.AddSymAccount("Wallet 1", "", "pass", true)
 		n.Rig.Signer.SignBeaconAttestation(n.Rig.Ctx, creds, "", comp.PubBytes(), AttData(Ent{S: 3, T: 4, Root: 1}))
-		_, sigs := n.Rig.Signer.SignBeaconAttestations(n.Rig.Ctx, creds, []string{"", ""}, [][]byte{key, comp.PubBytes()},
+		_, sigs := n.Rig.Signer.SignBeaconAttestations(ctx, creds, []string{"", ""}, [][]byte{key, comp.PubBytes()},
 			[]*rules.SignBeaconAttestationData{data, AttData(Ent{S: 0, T: 1, Root: 1})})
 		if len(sigs) > 0 {
 			return sigs[0]
 		}
 		return nil
 	}
-	_, sig := n.Rig.Signer.SignBeaconAttestation(n.Rig.Ctx, creds, name, key, data)
+	_, sig := n.Rig.Signer.SignBeaconAttestation(ctx, creds, name, key, data)
 	return sig
 }
 
@@ -191,6 +202,20 @@ func c14RoutedSequences(prop bool) [][]int {
 	for _, s := range c14Sequences(3) {
 		if len(s) == 3 {
 			res = append(res, s)
+		}
+	}
+	// A duty that arrives while the instance's store cannot be written, followed by the other (or the same) duty by any
+	// route once the store works again: whatever was signed during the fault still counts.
+	faulty := []int{routeSingleFault, routeBatch2KeyFault}
+	if prop {
+		faulty = []int{routeSingleFault}
+	}
+	for _, r := range faulty {
+		for a := 0; a < 2; a++ {
+			res = append(res, []int{2*r + a})
+			for _, b := range syms {
+				res = append(res, []int{2*r + a, b})
+			}
 		}
 	}
 	if !prop {
@@ -536,7 +561,7 @@ func C14(tier string) int {
 			for _, seq := range c14RoutedSequences(false) {
 				hasBatch2 := false
 				for _, sym := range seq {
-					if r := symRoute(sym); r == routeBatch2Key || r == routeBatch2Last || r == routeStale || r == routeDecoy || r == routeBatch2Pad {
+					if r := symRoute(sym); r == routeBatch2Key || r == routeBatch2Last || r == routeStale || r == routeDecoy || r == routeBatch2Pad || r == routeBatch2KeyFault {
 						hasBatch2 = true
 					}
 				}
